@@ -872,6 +872,26 @@ impl LuaGenerator for DenseLuaGenerator {
         if let Some(method) = &call.get_method() {
             self.push_char(':');
             self.push_str(method.get_name());
+
+            if call.has_method_type_instantiation() {
+                self.push_new_line_if_needed(2);
+                self.raw_push_char('<');
+                self.raw_push_char('<');
+
+                let mut write_comma = false;
+                for r#type in call.get_method_type_instantiation() {
+                    if write_comma {
+                        self.push_char(',');
+                    } else {
+                        write_comma = true;
+                    }
+                    self.write_type(r#type);
+                }
+
+                self.push_new_line_if_needed(2);
+                self.raw_push_char('>');
+                self.raw_push_char('>');
+            }
         }
 
         self.write_arguments(call.get_arguments());
